@@ -602,13 +602,16 @@ add('Minterm', 'C08', b_mt, lambda c, v: [int(sum(b << j for j, b in enumerate(v
 
 
 def b_som(parent, cfg, mk):
-    w, mts = cfg
-    A = mk('a', w); R = mk('r', 1)
+    w, mts = cfg[:2]
+    A = mk('a', w); R = mk('r', cfg[2] if len(cfg) > 2 else 1)
     P().SumOfMinterms(parent, 'd', A, list(mts), R)
     return [A], [R]
 
 
 _SOM = [(3, (0,)), (3, (1, 5, 7)), (4, (2, 3, 9, 15)), (2, (0, 1, 2, 3)), (1, (1,)), (5, (0, 31, 16, 7))]
+# short and long lists (fewer / more than half of the table, all but one, the whole table), result wires wider than the flag
+_SOM += [(4, (0, 2, 3, 5, 6, 7, 8, 9, 11, 13)), (4, tuple(range(15))), (3, tuple(range(8))), (3, (0, 1, 2, 4, 7)),
+         (4, (0, 2, 3, 5, 6, 7, 8, 9, 11, 13), 2), (3, (1, 5, 7), 4), (3, (0, 1, 2, 4, 7), 3), (2, (0, 1, 2), 8), (5, tuple(range(0, 32, 3)) + (1, 2, 4, 5, 7, 8, 10), 2)]
 add('SumOfMinterms', 'C08', b_som, lambda c, v: [int(v[0] in c[1])], _SOM, _SOM + [(6, tuple(range(0, 64, 5))), (4, tuple(range(16)))])
 
 
@@ -787,6 +790,51 @@ add('Constant', 'C08', b_const, lambda c, v: [c[1]], [(1, 0), (1, 1), (4, 9), (8
 
 
 # --------------------------------------------------------------------------- input enumeration
+
+# --------------------------------------------------------------------------- sizes beyond a machine word
+# Python integers are unbounded but floats, numpy scalars, struct formats and Verilog literals are not: every block also runs at
+# 64 bits, just above (65) and well above (100) -- beyond the 53 bits a double holds -- in both tiers.
+def extend(names, cfgs):
+    for n in names if isinstance(names, (list, tuple)) else [names]:
+        e = by_name(n)
+        for c in cfgs:
+            if c not in e.quick:
+                e.quick.append(c)
+            if c not in e.thorough:
+                e.thorough.append(c)
+
+
+_TW = [(65, 65, 65), (100, 100, 100), (100, 64, 128), (72, 72, 144), (64, 100, 100)]
+extend(['Sub', 'Mul', 'SignedMul', 'Div', 'Mod', 'AddCarryIn'], _TW)
+extend(['SignedAdd', 'SignedSub'], [t for t in _TW if t[2] >= t[0] and t[2] >= t[1]])
+extend('Add', [(a, b, r, ci, co) for a, b, r in _TW for ci, co in ((0, 0), (1, 1))])
+extend('SignedDiv', [(64, 64, 64), (65, 65, 65), (100, 100, 100), (100, 64, 100)])
+extend(['Neg', 'Abs', 'Abs+inverted', 'SignExtend', 'ZeroExtend'], [(65, 65), (100, 100), (64, 100), (100, 64), (1, 100), (54, 54)])
+extend('Sign', [(65,), (100,)])
+extend(['ShiftLeftConstant', 'ShiftRightConstant'], [(64, 0, 64), (64, 1, 64), (64, 63, 64), (100, 1, 100), (100, 64, 100), (100, 99, 100), (65, 33, 70)])
+extend(['RotateLeftConstant', 'RotateRightConstant'], [(64, 1, 64), (64, 63, 64), (100, 1, 100), (100, 64, 100), (65, 33, 65)])
+extend(['ShiftLeft', 'ShiftRight', 'ShiftRight(arith=True)', 'ShiftRight(arith=wire)'], [(64, 6, 64), (64, 7, 64), (100, 7, 100), (65, 7, 65)])
+extend(['RotateLeft', 'RotateRight'], [(32, 5, 32), (64, 6, 64), (100, 7, 100)])
+extend('CountLeadingZeros', [(64, 7), (65, 7), (100, 7)])
+extend('BinaryToBCD', [(16, 20), (32, 40), (64, 80)])
+extend(['And', 'Or', 'Xor', 'Nor'], [(2, 64), (3, 65), (2, 100), (9, 3), (12, 1)])
+extend(['And2', 'Or2', 'Xor2', 'Nand2', 'Nor2'], [(64,), (65,), (100,)])
+extend(['Not', 'Buf'], [(64, 64), (65, 65), (100, 100)])
+extend(['AndBits', 'OrBits'], [(32,), (64,), (65,), (100,)])
+extend(['Mux', 'Demux'], [(1, 64), (2, 65), (1, 100), (4, 2)])
+extend(['OneHotMux', 'Select', 'OneHotDemux'], [(2, 64), (3, 65), (2, 100), (9, 2)])
+extend('SelectDefault', [(2, 64), (2, 100), (9, 2)])
+extend(['Swap', 'Equal', 'Comparator', 'ComparatorSignedUnsigned', 'Max2', 'Min2', 'SignedMax2', 'SignedMin2', 'Repeat', 'BufEnable'], [(64,), (65,), (100,)])
+extend(['EqualConstant', 'NotEqualConstant'], [(64, (1 << 64) - 1), (64, 0), (65, 1 << 64), (100, (1 << 99) + 1), (64, 0x9E3779B97F4A7C15)])
+extend('AnyEqual', [(2, 64), (3, 65), (2, 100), (9, 2)])
+extend('Bit', [(65, 64), (100, 99), (100, 53), (100, 0)])
+extend('Range', [(100, 99, 0), (100, 99, 36), (65, 64, 1), (100, 63, 0), (100, 99, 64)])
+extend(['BitsLSBF', 'BitsMSBF'], [(32,), (64,), (65,)])
+extend(['ConcatenateMSBF', 'ConcatenateLSBF'], [((32, 32), 64), ((33, 32), 65), ((50, 50), 100), ((1, 64), 65), ((64, 64), 128), ((1,) * 9, 9)])
+extend('Mux2', [(64, 1), (65, 1), (100, 1)])
+extend('Constant', [(64, (1 << 64) - 1), (65, 1 << 64), (100, (1 << 99) + 12345), (64, -1), (64, 0x9E3779B97F4A7C15)])
+extend(['PriorityEncoder(inc=True)', 'PriorityEncoder(inc=False)'], [(9,), (17,), (33,)])
+
 
 def input_cases(widths, rnd, exhaustive_bits, max_cases, n_random):
     """Exhaustive when the total input width is small, else boundary x boundary (capped, strided) + random."""
